@@ -301,3 +301,148 @@ theorem rinv_run : ∀ (as : List Act) (s s' : St), RInv s → run s as = some s
     · simp at hr
 
 end C17Reg
+
+namespace C17Reg
+open Reg
+
+theorem setClosed_length : ∀ (l : List Bool) (i : Nat), (setClosed l i).length = l.length
+  | [], _ => rfl
+  | _ :: _, 0 => rfl
+  | _ :: bs, i + 1 => by simp [setClosed, setClosed_length bs i]
+
+theorem setClosed_zero (l : List Bool) (i : Nat) (hi : i ≠ 0) : (setClosed l i)[0]? = l[0]? := by
+  cases l with
+  | nil => rfl
+  | cons b bs =>
+    cases i with
+    | zero => exact absurd rfl hi
+    | succ n => simp [setClosed]
+
+/-- "pool 0 is open and out of everybody's reach": closed under every step of the split-lock machine -/
+structure Orphan0 (s : St) : Prop where
+  open0 : s.pools[0]? = some false
+  len : 2 ≤ s.pools.length
+  notReg : s.reg ≠ some 0
+  notMade : 0 ∉ s.made
+  notDoomed : 0 ∉ s.toClose
+  crit : s.crit ≠ some (.addLooked (some 0)) ∧ s.crit ≠ some (.addCreated 0) ∧ s.crit ≠ some (.addStored 0) ∧
+    s.crit ≠ some (.rmDeleted 0)
+
+theorem orphan0_step (s s' : St) (a : Act) (h : Orphan0 s) (hs : stepSplit s a = some s') : Orphan0 s' := by
+  obtain ⟨h1, h2, h3, h4, h5, h6a, h6b, h6c, h6d⟩ := h
+  cases a with
+  | callAdd => simp only [stepSplit, step] at hs; injection hs with hs; subst hs; exact ⟨h1, h2, h3, h4, h5, h6a, h6b, h6c, h6d⟩
+  | callRemove => simp only [stepSplit, step] at hs; injection hs with hs; subst hs; exact ⟨h1, h2, h3, h4, h5, h6a, h6b, h6c, h6d⟩
+  | callClose => simp only [stepSplit, step] at hs; injection hs with hs; subst hs; exact ⟨h1, h2, h3, h4, h5, h6a, h6b, h6c, h6d⟩
+  | addLock => simp [stepSplit] at hs
+  | addLookup => simp [stepSplit] at hs
+  | addCreate => simp [stepSplit] at hs
+  | addStore => simp [stepSplit] at hs
+  | addUnlock => simp [stepSplit] at hs
+  | fill i =>
+    simp only [stepSplit, step] at hs
+    split at hs
+    · injection hs with hs; subst hs; exact ⟨h1, h2, h3, h4, h5, h6a, h6b, h6c, h6d⟩
+    · simp at hs
+  | rmLock =>
+    simp only [stepSplit, step] at hs
+    split at hs
+    · injection hs with hs; subst hs
+      exact ⟨h1, h2, h3, h4, h5, by simp, by simp, by simp, by simp⟩
+    · simp at hs
+  | rmLookup =>
+    simp only [stepSplit, step] at hs
+    split at hs
+    · split at hs
+      · injection hs with hs; subst hs
+        exact ⟨h1, h2, h3, h4, h5, by simp, by simp, by simp, by simp⟩
+      · rename_i k hr
+        injection hs with hs; subst hs
+        have hk : k ≠ 0 := by intro hk; subst hk; exact h3 hr
+        refine ⟨h1, h2, by simp, h4, h5, by simp, by simp, by simp, ?_⟩
+        intro hc; injection hc with hc; injection hc with hc; exact hk hc
+    · simp at hs
+  | rmUnlock =>
+    simp only [stepSplit, step] at hs
+    split at hs
+    · injection hs with hs; subst hs
+      exact ⟨h1, h2, h3, h4, h5, by simp, by simp, by simp, by simp⟩
+    · rename_i k hc
+      injection hs with hs; subst hs
+      have hk : k ≠ 0 := by intro hk; subst hk; exact h6d hc
+      refine ⟨h1, h2, h3, h4, ?_, by simp, by simp, by simp, by simp⟩
+      intro hm
+      rcases List.mem_append.mp hm with hm | hm
+      · exact h5 hm
+      · simp at hm; exact hk hm.symm
+    · simp at hs
+  | close k =>
+    simp only [stepSplit, step] at hs
+    split at hs
+    · rename_i hm
+      injection hs with hs; subst hs
+      have hk : k ≠ 0 := by intro hk; subst hk; exact h5 hm
+      refine ⟨by simp only; rw [setClosed_zero _ _ hk]; exact h1, by simp only; rw [setClosed_length]; exact h2, h3, h4, ?_,
+        h6a, h6b, h6c, h6d⟩
+      intro hm'; exact h5 (List.mem_of_mem_erase hm')
+    · simp at hs
+  | clLock =>
+    simp only [stepSplit, step] at hs
+    split at hs
+    · injection hs with hs; subst hs
+      exact ⟨h1, h2, h3, h4, h5, by simp, by simp, by simp, by simp⟩
+    · simp at hs
+  | clSweep =>
+    simp only [stepSplit, step] at hs
+    split at hs
+    · split at hs
+      · injection hs with hs; subst hs
+        exact ⟨h1, h2, h3, h4, h5, by simp, by simp, by simp, by simp⟩
+      · rename_i k hr
+        injection hs with hs; subst hs
+        have hk : k ≠ 0 := by intro hk; subst hk; exact h3 hr
+        exact ⟨by simp only; rw [setClosed_zero _ _ hk]; exact h1, by simp only; rw [setClosed_length]; exact h2, by simp, h4, h5,
+          by simp, by simp, by simp, by simp⟩
+    · simp at hs
+  | clUnlock =>
+    simp only [stepSplit, step] at hs
+    split at hs
+    · injection hs with hs; subst hs
+      exact ⟨h1, h2, h3, h4, h5, by simp, by simp, by simp, by simp⟩
+    · simp at hs
+  | sLookup =>
+    simp only [stepSplit] at hs
+    split at hs
+    · split at hs <;> (injection hs with hs; subst hs; exact ⟨h1, h2, h3, h4, h5, h6a, h6b, h6c, h6d⟩)
+    · simp at hs
+  | sMake =>
+    simp only [stepSplit] at hs
+    split at hs
+    · injection hs with hs; subst hs
+      refine ⟨?_, by simp; omega, h3, ?_, h5, h6a, h6b, h6c, h6d⟩
+      · simp only; rw [List.getElem?_append_left (by omega)]; exact h1
+      · intro hm
+        rcases List.mem_append.mp hm with hm | hm
+        · exact h4 hm
+        · simp at hm; omega
+    · simp at hs
+  | sStore k =>
+    simp only [stepSplit] at hs
+    split at hs
+    · rename_i hc
+      injection hs with hs; subst hs
+      have hk : k ≠ 0 := by intro hk; subst hk; exact h4 hc.2
+      refine ⟨h1, h2, ?_, ?_, h5, h6a, h6b, h6c, h6d⟩
+      · intro hr; injection hr with hr; exact hk hr
+      · intro hm; exact h4 (List.mem_of_mem_erase hm)
+    · simp at hs
+
+theorem orphan0_run : ∀ (as : List Act) (s s' : St), Orphan0 s → runSplit s as = some s' → Orphan0 s'
+  | [], s, s', h, hr => by simp [runSplit] at hr; subst hr; exact h
+  | a :: as, s, s', h, hr => by
+    simp only [runSplit] at hr
+    split at hr
+    · rename_i s1 hs1; exact orphan0_run as s1 s' (orphan0_step s s1 a h hs1) hr
+    · simp at hr
+
+end C17Reg
